@@ -341,7 +341,8 @@ pub fn finish(f: Finish) -> i32 {
     let mut n_known = 0u64;
     let mut vio_list = Vec::new();
     let mut printed = 0;
-    let _ = std::fs::create_dir_all("/verif/replays");
+    let out_dir = std::env::var("VERIF_OUT").unwrap_or_else(|_| "/verif".into());
+    let _ = std::fs::create_dir_all(format!("{}/replays", out_dir));
     for (k, (site, rec)) in sh.violations.iter().enumerate() {
         let is_known = known.iter().find(|(s, _)| s == site);
         // replay twice
@@ -364,7 +365,7 @@ pub fn finish(f: Finish) -> i32 {
             vio_list.push(json!({"site": site, "known": true, "count": rec.count, "witness": rec.witness, "detail": rec.detail}));
         } else {
             n_new += rec.count;
-            let path = format!("/verif/replays/{}-{}.json", run.prop, k);
+            let path = format!("{}/replays/{}-{}.json", out_dir, run.prop, k);
             let body = json!({"property": run.prop, "site": site, "witness": rec.witness, "detail": rec.detail, "count": rec.count});
             let _ = std::fs::write(&path, serde_json::to_string_pretty(&body).unwrap());
             if printed < 20 {
@@ -430,8 +431,8 @@ pub fn finish(f: Finish) -> i32 {
         "wall_s": wall,
         "violations": n_new,
     });
-    let _ = std::fs::create_dir_all("/verif/evidence");
-    let path = format!("/verif/evidence/{}.json", run.prop);
+    let _ = std::fs::create_dir_all(format!("{}/evidence", out_dir));
+    let path = format!("{}/evidence/{}.json", out_dir, run.prop);
     std::fs::write(&path, serde_json::to_string_pretty(&ev).unwrap()).expect("write evidence");
 
     eprintln!(
